@@ -209,6 +209,18 @@ for _p in ("C09", "C11"):
     w("string-apply-absolute-index-" + _p.lower(), [_p], _p + ".units/(*column.columnString).Apply", "absolute offset indexes a per-block array",
       ("column_strings.go", "\t// Update the values of the column, for this one we can only process stores\n\tfor r.Next() {\n\t\toffset := r.Offset - int32(from)", "\t// Update the values of the column, for this one we can only process stores\n\tfor r.Next() {\n\t\t_ = from\n\t\toffset := r.Offset"))
 
+# ---- rules of round 4 -----------------------------------------------------------------------------
+w("free-without-recount", ["C11"], "C11.siblings/(*column.Txn).insert", "one of the three offset releasers stops maintaining the row counter",
+  ("collection.go", "\tc.fill.Remove(idx)\n\tatomic.StoreUint64(&c.count, uint64(c.fill.Count()))\n\tc.lock.Unlock()\n\treturn\n", "\tc.fill.Remove(idx)\n\tc.lock.Unlock()\n\treturn\n"))
+w("withvalue-and-index", ["C04"], "C04.ops/(*column.Txn).WithValue/op", "WithValue intersects with column.Index before the predicate",
+  ("txn.go", "\t\toffset := chunk.Min()\n\t\tindex.Filter(func(x uint32) (match bool) {\n\t\t\tif v, ok := c.Value(offset + x); ok {", "\t\toffset := chunk.Min()\n\t\tindex.And(c.Index(chunk))\n\t\tindex.Filter(func(x uint32) (match bool) {\n\t\t\tif v, ok := c.Value(offset + x); ok {"), suite="survives")
+w("restore-swallows-state-eof", ["C13"], "C13.propagate/(*column.Collection).Restore", "a state section cut at a frame boundary is accepted",
+  ("snapshot.go", "\tcommits, err := c.readState(s2.NewReader(snapshot))\n\tif err != nil {\n\t\treturn err\n\t}\n", "\tcommits, err := c.readState(s2.NewReader(snapshot))\n\tif err == io.ErrUnexpectedEOF {\n\t\treturn nil\n\t}\n\tif err != nil {\n\t\treturn err\n\t}\n"), suite="survives")
+w("vacuum-timer-fires-once", ["C17"], "C17.periodic/(*column.Collection).vacuum/Timer", "cleanup waits on a timer that is never re-armed",
+  ("column_expire.go", "\tticker := time.NewTicker(interval)\n", "\tticker := time.NewTimer(interval)\n"))
+w("commit-writeto-drops-length", ["C05", "C06"], "C05.grammar/Commit/groups", "the byte-section length is not written",
+  ("commit/commit.go", "\t\t// Write buffer length\n\t\tif err := w.WriteUvarint(uint64(offset)); err != nil {\n\t\t\treturn err\n\t\t}\n", "\t\t// Write buffer length\n"))
+
 os.makedirs(os.path.dirname(os.path.abspath(__file__)), exist_ok=True)
 json.dump(W, open(os.path.join(os.path.dirname(os.path.abspath(__file__)), "witnesses.json"), "w"), indent=1)
 print(len(W), "witnesses")
